@@ -169,7 +169,7 @@ def entry_points(case, unit="rad"):
             yield "base.xyt2tr", lambda: base.xyt2tr([t[0], t[1], th], **u)
 
 
-PLANAR_HOM = {"base.trot2", "base.transl2", "base.trot2(t=)", "base.xyt2tr"}
+PLANAR_HOM = {"base.trot2", "base.transl2", "base.trot2(t=)", "base.xyt2tr", "base.trinterp2"}
 
 
 def result_T4(label, v):
@@ -265,6 +265,70 @@ def v_entry_points(case, unit="rad"):
         if ax == "z":
             yield "SE2(x,y,theta)", lambda: SE2(t[0], t[1], th, **u)
             yield "base.trot2(t=)", lambda: base.trot2(th, t=t[:2], **u)
+
+
+DT = {"1e-12": 1e-12, "1e-9": 1e-9, "1e-6": 1e-6, "1e-4": 1e-4, "1e-3": 1e-3, "1e-2": 1e-2, "0.05": 0.05,
+      "0.5": 0.5, "2": 2.0, "pi-1e-6": math.pi - 1e-6}
+ST = {"0": 0.0, "1e-12": 1e-12, "0.25": 0.25, "0.5": 0.5, "0.9": 0.9, "1-1e-12": 1 - 1e-12, "1": 1.0}
+
+
+def _axis_rot(dirv, a):
+    """rotation by a about dirv: conjugate an x rotation by a fixed generic frame built from
+    elementary rotations (no library code)"""
+    import gamma
+    u = np.array(dirv, dtype=float)
+    u = u / np.linalg.norm(u)
+    # frame Q whose first column is u
+    tmp = np.array([0.3, -0.5, 0.81])
+    v = np.cross(u, tmp)
+    v /= np.linalg.norm(v)
+    w = np.cross(u, v)
+    Q = np.column_stack([u, v, w])
+    return Q @ gamma.rotx(a) @ Q.T
+
+
+def interp_entry_points(case):
+    """v-interp cases: (label, thunk) ; end points differ by a rotation of DT[d] about dir"""
+    import gamma
+    p = case["par"]
+    d, s, ws = DT[p["d"]], ST[p["s"]], p["start"]
+    e = p["entry"]
+    R0 = gamma.rotz(0.4) @ gamma.roty(-0.7) @ gamma.rotx(1.1) if ws else np.eye(3)
+    R1 = R0 @ _axis_rot(p["dir"], d)
+    t0 = np.array([1.0, -2.0, 0.5]) if ws else np.zeros(3)
+    t1 = np.array([-3.0, 0.25, 2.0])
+    th0 = 0.4 if ws else 0.0
+    th1 = th0 + d
+    T0, T1 = base.rt2tr(R0, t0), base.rt2tr(R1, t1)
+    P0 = np.array([[math.cos(th0), -math.sin(th0)], [math.sin(th0), math.cos(th0)]])
+    P1 = np.array([[math.cos(th1), -math.sin(th1)], [math.sin(th1), math.cos(th1)]])
+    H0, H1 = base.rt2tr(P0, t0[:2]), base.rt2tr(P1, t1[:2])
+    if e == "SO3":
+        yield "SO3.interp", (lambda: SO3(R1).interp(s, SO3(R0))) if ws else (lambda: SO3(R1).interp(s))
+    elif e == "SE3":
+        yield "SE3.interp", (lambda: SE3(T1).interp(s, SE3(T0))) if ws else (lambda: SE3(T1).interp(s))
+    elif e == "SO2":
+        yield "SO2.interp", (lambda: SO2(P1).interp(s, SO2(P0))) if ws else (lambda: SO2(P1).interp(s))
+    elif e == "SE2":
+        yield "SE2.interp", (lambda: SE2(H1).interp(s, SE2(H0))) if ws else (lambda: SE2(H1).interp(s))
+    elif e == "UnitQuaternion":
+        q0, q1 = UnitQuaternion(SO3(R0)), UnitQuaternion(SO3(R1))
+        yield "UnitQuaternion.interp", (lambda: q0.interp(s, dest=q1)) if ws else (lambda: q1.interp(s))
+        yield "UnitQuaternion.interp(shortest)", (lambda: q0.interp(s, dest=q1, shortest=True)) if ws \
+            else (lambda: q1.interp(s, shortest=True))
+    elif e == "trinterp(R)":
+        yield "base.trinterp(R)", lambda: base.trinterp(R0 if ws else None, R1, s)
+    elif e == "trinterp(T)":
+        yield "base.trinterp(T)", lambda: base.trinterp(T0 if ws else None, T1, s)
+    elif e == "trinterp2(R)":
+        yield "base.trinterp2(R)", lambda: base.trinterp2(P0 if ws else None, P1, s)
+    elif e == "trinterp2(T)":
+        yield "base.trinterp2", lambda: base.trinterp2(H0 if ws else None, H1, s)
+    elif e == "slerp":
+        qa, qb = base.r2q(R0), base.r2q(R1)
+        yield "base.slerp", lambda: UnitQuaternion(base.slerp(qa, qb, s), norm=False, check=False)
+        yield "base.slerp(shortest)", lambda: UnitQuaternion(base.slerp(qa, qb, s, shortest=True), norm=False,
+                                                              check=False)
 
 
 def expected_T4(case):
